@@ -57,6 +57,7 @@ type NodeSpec struct {
 	Cap             int    `json:"cap,omitempty"`      // reply cap (0 = 2000)
 	DisconnectAtMsg int    `json:"disconnect_at_msg,omitempty"`
 	OffendOnce      bool   `json:"offend_once,omitempty"`       // forbidden: after it has delivered the forbidden header once the node follows the honest chain
+	InvBatch        int    `json:"inv_batch,omitempty"`         // inv announcements of this node list its last n blocks, oldest first (the service may know the earlier ones)
 	VersionLag      int    `json:"version_lag,omitempty"`       // the node's version message reports a height this many blocks below its chain: it found blocks while it was being synced from
 	DropAfterHeight int    `json:"drop_after_height,omitempty"` // the node closes the connection right after the getheaders answer that contains this height
 	Silent          bool   `json:"silent,omitempty"`            // never answers getheaders (stall)
@@ -435,6 +436,7 @@ func Execute(s *Scenario, dir string) (res *Result) {
 			n.DisconnectAtMsg = ns.DisconnectAtMsg
 			n.DropAfterHeight = ns.DropAfterHeight
 			n.VersionLag = ns.VersionLag
+			n.InvBatch = ns.InvBatch
 			if ns.Kind == "forbidden" && !ns.OrphanForbidden && x.w.Forbidden != nil {
 				n.MarkHash = x.w.Forbidden.HashOf()
 			}
@@ -796,7 +798,7 @@ func Execute(s *Scenario, dir string) (res *Result) {
 			// Bounded progress with slack: hand-offs between the service's goroutines (a closed connection's done
 			// message, a re-dial) are not visible to the barrier and can lag under load. Before concluding
 			// "not converged", give the service a few more rounds: pause, quiesce, and let the honest peer announce
-			// one more block. A genuine failure to converge persists through every round.
+			// its tip once more. A genuine failure to converge persists through every round.
 			for attempt := 0; attempt < 6 && !x.converged(); attempt++ {
 				x.count("extra_convergence_rounds", 1)
 				time.Sleep(time.Duration(150*(attempt+1)) * time.Millisecond)
@@ -809,9 +811,10 @@ func Execute(s *Scenario, dir string) (res *Result) {
 				if len(an.Live()) == 0 && !x.waitFor(func() bool { return len(an.Live()) > 0 }, 30*time.Second) {
 					break
 				}
-				x.w.ExtendHonest(1, genesis)
-				an.SetChain(x.w.Honest)
+				// the SAME tip is announced again (no new block: a new block would be new information and could make up
+				// for an announcement the service wrongly ignored)
 				for _, c := range an.Live() {
+					c.RewindPeerKnown(int32(len(x.w.Honest) - 1))
 					_ = c.Announce()
 				}
 				if !x.quiesce("extra convergence round") {
